@@ -2,6 +2,7 @@
 package c05
 
 import (
+	"os"
 	"bytes"
 	"fmt"
 	"io"
@@ -125,10 +126,15 @@ func TestCheck(t *testing.T) {
 	})
 	longStreams(r)
 	light := r.Quick()
+	sanitizer := os.Getenv("VERIF_LIGHT") == "1" // sanitizer passes run a sixth of the type universe
 	uni := corpus.Universe(r.Seed, 4, r.Pick(600, 20000), r.Pick(5, 7))
 	for _, ue := range uni {
 		ue := ue
 		if light && ue.Block == "depth2" && fnvMod(ue.Label, 4) != 0 {
+			r.Skip(1)
+			continue
+		}
+		if sanitizer && fnvMod(ue.Label, 6) != 0 {
 			r.Skip(1)
 			continue
 		}
